@@ -1,0 +1,17 @@
+//go:build !verif
+
+package nebula
+
+// Verification yield points compile to nothing unless built with -tags verif.
+const (
+	verifDecryptAfterCheck = iota
+	verifDecryptBeforeUpdate
+	verifSendAfterReserve
+	verifHsBeforeCheckAndComplete
+	verifHsBeforeComplete
+	verifHsAfterAllocIndex
+	verifFwAfterInConnsMiss
+	verifCmBeforeSwapPrimary
+)
+
+func verifPoint(int) {}
